@@ -34,6 +34,57 @@ type dirImage struct {
 	names []string          // sorted
 }
 
+// canonMetadata re-encodes a metadata block with its entries sorted by key
+// (the writer iterates a Go map: the order differs from run to run, the
+// pristine images must not).
+func canonMetadata(b []byte) ([]byte, bool) {
+	ref := classifyAppMetadata(b)
+	if ref.known != "" || len(b) < 8 || binary.BigEndian.Uint32(b) != 4 || int(binary.BigEndian.Uint32(b[4:])) != len(ref.keys) {
+		return nil, false
+	}
+	idx := make([]int, len(ref.keys))
+	for i := range idx {
+		idx[i] = i
+	}
+	sort.Slice(idx, func(a, c int) bool { return ref.keys[idx[a]] < ref.keys[idx[c]] })
+	out := append(be32(4), be32(len(ref.keys))...)
+	total := 8
+	for _, i := range idx {
+		v := ref.values[i]
+		if strings.Contains(ref.keys[i], "WRAPPED") {
+			if cv, ok := canonMetadata(v); ok && len(cv) == len(v) {
+				v = cv
+			}
+		}
+		out = append(out, be32(len(ref.keys[i]))...)
+		out = append(out, ref.keys[i]...)
+		out = append(out, be32(len(v))...)
+		out = append(out, v...)
+		total += 8 + len(ref.keys[i]) + len(v)
+	}
+	if total != len(b) {
+		return nil, false
+	}
+	return out, true
+}
+
+func canonFile(b []byte) []byte {
+	if len(b) < 4 {
+		return b
+	}
+	mLen := int(binary.BigEndian.Uint32(b))
+	if mLen > len(b)-4 {
+		return b
+	}
+	cm, ok := canonMetadata(b[4 : 4+mLen])
+	if !ok {
+		return b
+	}
+	out := append([]byte(nil), b[:4]...)
+	out = append(out, cm...)
+	return append(out, b[4+mLen:]...)
+}
+
 func readDirImage(root string) (*dirImage, error) {
 	img := &dirImage{files: map[string][]byte{}}
 	err := filepath.Walk(root, func(p string, info os.FileInfo, err error) error {
@@ -45,7 +96,7 @@ func readDirImage(root string) (*dirImage, error) {
 		if err != nil {
 			return err
 		}
-		img.files[rel] = b
+		img.files[rel] = canonFile(b)
 		img.names = append(img.names, rel)
 		return nil
 	})
@@ -562,9 +613,10 @@ func headerKnown1(mut []byte) string {
 	if mLen > 16<<10 && mLen > avail {
 		return kfF16 // make([]byte, mLen) before reading
 	}
-	mBs := make([]byte, mLen)
-	copy(mBs, mut[4:])
-	return metadataKnown(mBs, 4)
+	if mLen > avail {
+		return "" // io.ReadFull fails: ErrCorruptedMetadata
+	}
+	return metadataKnown(mut[4:4+mLen], 4)
 }
 
 func metadataKnown(b []byte, depth int) string {
@@ -647,7 +699,19 @@ func readAllAppendable1(a appendable.Appendable) error {
 	return nil
 }
 
+// openAndRead never closes in a defer: a panic inside a component leaves its
+// mutex locked and a deferred Close would turn the panic into a deadlock.
 func openAndRead(comp, dir string, keys [][]byte) (opened bool, err error) {
+	var closers []func()
+	opened, err = openAndRead1(comp, dir, keys, &closers)
+	for i := len(closers) - 1; i >= 0; i-- {
+		closers[i]()
+	}
+	return opened, err
+}
+
+func openAndRead1(comp, dir string, keys [][]byte, closers *[]func()) (opened bool, err error) {
+	onExit := func(f func()) { *closers = append(*closers, f) }
 	switch comp {
 	case "singleapp":
 		a, err := singleapp.Open(filepath.Join(dir, "f.aof"), singleapp.DefaultOptions().WithReadBufferSize(64).WithWriteBuffer(make([]byte, 256)))
@@ -660,7 +724,7 @@ func openAndRead(comp, dir string, keys [][]byte) (opened bool, err error) {
 		if err != nil {
 			return false, err
 		}
-		defer a.Close()
+		onExit(func() { a.Close() })
 		a.Metadata()
 		a.Size()
 		var firstErr error
@@ -682,7 +746,7 @@ func openAndRead(comp, dir string, keys [][]byte) (opened bool, err error) {
 		if err != nil {
 			return false, err
 		}
-		defer tr.Close()
+		onExit(func() { tr.Close() })
 		n := tr.Size()
 		if n > 5000 {
 			n = 5000
@@ -717,13 +781,13 @@ func openAndRead(comp, dir string, keys [][]byte) (opened bool, err error) {
 		if err != nil {
 			return false, err
 		}
-		defer tr.Close()
+		onExit(func() { tr.Close() })
 		tr.Ts()
 		snap, err := tr.Snapshot()
 		if err != nil {
 			return true, err
 		}
-		defer snap.Close()
+		onExit(func() { snap.Close() })
 		for _, desc := range []bool{false, true} {
 			rd, err := snap.NewReader(tbtree.ReaderSpec{DescOrder: desc, IncludeHistory: desc})
 			if err != nil {
@@ -749,7 +813,7 @@ func openAndRead(comp, dir string, keys [][]byte) (opened bool, err error) {
 		if err != nil {
 			return false, err
 		}
-		defer st.Close()
+		onExit(func() { st.Close() })
 		n := st.TxCount()
 		if n > 200 {
 			n = 200
@@ -822,11 +886,10 @@ func innermostMeta(b []byte) map[string][]byte {
 		return nil
 	}
 	mLen := int(binary.BigEndian.Uint32(b))
-	if mLen > 1<<20 {
+	if mLen > len(b)-4 {
 		return nil
 	}
-	cur := make([]byte, mLen)
-	copy(cur, b[4:])
+	cur := b[4 : 4+mLen]
 	for depth := 0; depth < 2; depth++ {
 		ref := classifyAppMetadata(cur)
 		if ref.known != "" {
@@ -854,10 +917,16 @@ func innermostMeta(b []byte) map[string][]byte {
 	return m
 }
 
-var limitKeys = []string{"MAX_TX_ENTRIES", "MAX_KEY_LEN", "MAX_VALUE_LEN", "FILE_SIZE", "MAX_NODE_SIZE", "MAX_KEY_SIZE", "MAX_VALUE_SIZE"}
+const kfF17b = "F17b-unbounded-limits-in-commit-log-header"
+
+// limits that Options.Validate bounds (F17) and limits for which no bound exists anywhere (F17b)
+var (
+	limitKeys    = []string{"MAX_KEY_LEN", "FILE_SIZE"}
+	openEndedKey = []string{"MAX_TX_ENTRIES", "MAX_VALUE_LEN", "MAX_NODE_SIZE", "MAX_KEY_SIZE", "MAX_VALUE_SIZE"}
+)
 
 // limitsAlteredKnown: a commit-log chunk of the store (or of its index) carries different limits than the pristine one.
-func limitsAlteredKnown(img *dirImage, override map[string][]byte) bool {
+func limitsAlteredKnown(img *dirImage, override map[string][]byte, limitKeys []string) bool {
 	for n, b := range override {
 		if !strings.Contains(n, "commit/") {
 			continue
@@ -1044,12 +1113,10 @@ func multiappFileSizeKnown(img *dirImage, override map[string][]byte, deleted ma
 			continue
 		}
 		mLen := int(binary.BigEndian.Uint32(b))
-		if mLen > 1<<20 {
-			continue
+		if mLen > len(b)-4 {
+			continue // singleapp.Open refuses the file
 		}
-		mBs := make([]byte, mLen) // singleapp.Open: short reads leave the rest zeroed
-		copy(mBs, b[4:])
-		outer := classifyAppMetadata(mBs)
+		outer := classifyAppMetadata(b[4 : 4+mLen])
 		if outer.known != "" {
 			continue
 		}
@@ -1096,9 +1163,9 @@ func bytesEqualPayloadOf(orig, mut []byte) bool {
 	return string(orig[ho:]) == string(mut[hm:])
 }
 
-// probeVerdict: pinned reproductions use small bombs (256 MiB: eight shards run them at once) and a 128 MiB bound.
+// probeVerdict: pinned reproductions use small bombs (<= 256 MiB: eight shards run them at once) and a 48 MiB bound.
 func probeVerdict(r result, what string) (bool, string) {
-	r.base = 128 << 20
+	r.base = 48 << 20
 	if m := r.verdict(what, 4096); m != "" {
 		return true, m
 	}
@@ -1188,9 +1255,12 @@ func diskProbes() []vk.Probe {
 	}}, {ID: kfF17, Present: func() (bool, string) {
 		return storeProbe("store.Open with MAX_KEY_LEN := 1<<22 in the header of commit/00000000.txi (MAX_TX_ENTRIES stays 16)", "commit/00000000.txi",
 			setField(">MAX_KEY_LEN.val", 1<<22), nil)
+	}}, {ID: kfF17b, Present: func() (bool, string) {
+		return storeProbe("store.Open with MAX_TX_ENTRIES := 1<<16 in the header of commit/00000000.txi", "commit/00000000.txi",
+			setField(">MAX_TX_ENTRIES.val", 1<<16), nil)
 	}}, {ID: kfF22, Present: func() (bool, string) {
-		return storeProbe("store.Open + ReadTx(1) (integrity checks on) + ReadValue with the vLen of tx 1's entry set to 0x10000000 in the tx log", "tx/00000000.tx",
-			setField("tx1.e0.vLen", 0x10000000), func(st *store.ImmuStore) {
+		return storeProbe("store.Open + ReadTx(1) (integrity checks on) + ReadValue with the vLen of tx 1's entry set to 0x04000000 in the tx log", "tx/00000000.tx",
+			setField("tx1.e0.vLen", 0x04000000), func(st *store.ImmuStore) {
 				holder := store.NewTx(64, 256)
 				if err := st.ReadTx(1, false, holder); err != nil {
 					return
@@ -1206,8 +1276,8 @@ func diskProbes() []vk.Probe {
 		name := "commit/00000000.di"
 		b := append([]byte(nil), img.files[name]...)
 		p0 := 4 + int(binary.BigEndian.Uint32(b))
-		// size of the first payload := 0x10000000
-		binary.BigEndian.PutUint32(b[p0+8:], 0x10000000)
+		// size of the first payload := 0x04000000
+		binary.BigEndian.PutUint32(b[p0+8:], 0x04000000)
 		dir := vk.Dir()
 		defer removeAll(dir)
 		if err := img.writeTo(dir, map[string][]byte{name: b}, nil); err != nil {
@@ -1221,7 +1291,7 @@ func diskProbes() []vk.Probe {
 			defer tr.Close()
 			tr.DataAt(1)
 		})
-		return probeVerdict(r, "ahtree.Open + DataAt(1) with the payload size of commit-log entry 1 set to 0x10000000")
+		return probeVerdict(r, "ahtree.Open + DataAt(1) with the payload size of commit-log entry 1 set to 0x04000000")
 	}}, {ID: kfF2, Present: probeF2}, {ID: kfF20, Present: func() (bool, string) {
 		dfOnce.Do(func() { df, dfErr = buildDiskFixture() })
 		if dfErr != nil {
@@ -1262,10 +1332,10 @@ func diskProbes() []vk.Probe {
 		if len(b) < 44 {
 			return false, ""
 		}
-		// last commit-log entry: txOff := -0x10000000, txSize := 0x10000000 (their sum, 0, passes the only size check)
+		// last commit-log entry: txOff := -0x04000000, txSize := 0x04000000 (their sum, 0, passes the only size check)
 		e := len(b) - 44
-		binary.BigEndian.PutUint64(b[e:], uint64(0xFFFFFFFFF0000000))
-		binary.BigEndian.PutUint32(b[e+8:], 0x10000000)
+		binary.BigEndian.PutUint64(b[e:], uint64(0xFFFFFFFFFC000000))
+		binary.BigEndian.PutUint32(b[e+8:], 0x04000000)
 		dir := vk.Dir()
 		defer removeAll(dir)
 		if err := img.writeTo(dir, map[string][]byte{name: b}, nil); err != nil {
@@ -1276,16 +1346,16 @@ func diskProbes() []vk.Probe {
 				st.Close()
 			}
 		})
-		return probeVerdict(r, "store.Open with the last commit-log entry set to (txOff=-0x10000000, txSize=0x10000000)")
+		return probeVerdict(r, "store.Open with the last commit-log entry set to (txOff=-0x04000000, txSize=0x04000000)")
 	}}, {ID: kfF18, Present: func() (bool, string) {
-		// gzip-compressed appendable, length of the first chunk set to 10 00 00 00 (256 MiB)
+		// gzip-compressed appendable, length of the first chunk set to 04 00 00 00 (64 MiB)
 		if ok, m := probe(func(img *dirImage) []byte {
 			b := append([]byte(nil), img.files["f.aof"]...)
 			p0 := 4 + int(binary.BigEndian.Uint32(b))
-			copy(b[p0:], []byte{0x10, 0, 0, 0})
+			copy(b[p0:], []byte{0x04, 0, 0, 0})
 			return b
 		}); ok {
-			return true, "first chunk length := 10000000: " + m
+			return true, "first chunk length := 04000000: " + m
 		}
 		// compression format := 9 (unknown)
 		return probe(func(img *dirImage) []byte {
@@ -1401,8 +1471,11 @@ func TestOpenCorruptedDirectories(t *testing.T) {
 				known = kfF19
 			}
 		}
-		if known == "" && (comp == "store" || comp == "tbtree") && limitsAlteredKnown(img, override) {
+		if known == "" && (comp == "store" || comp == "tbtree") && limitsAlteredKnown(img, override, limitKeys) {
 			known = kfF17
+		}
+		if known == "" && (comp == "store" || comp == "tbtree") && limitsAlteredKnown(img, override, openEndedKey) {
+			known = kfF17b
 		}
 		if known == "" && comp == "store" && vLenKnown(img, override, fx.txFields) {
 			known = kfF22
